@@ -256,7 +256,7 @@ impl Sc {
             };
             if r {
                 ctx.fail(
-                    "ins-after-reset",
+                    "reset-stale-free",
                     &format!("find_or_find_insert_slot on a table with 0 slots and free = {free} (left behind by reset_no_drop) panics (debug assertions) / reads out of bounds"),
                 );
                 self.dead = true;
@@ -521,7 +521,13 @@ impl Sc {
                         }
                         ok = ok && c.slots() == s0;
                     }
-                    if !ok {
+                    if s0 == 0 {
+                        let free = peek(&self.t, &self.lay).1;
+                        ctx.fail(
+                            "reset-stale-free",
+                            &format!("reserve({n}) left the table without slots (free = {free} left behind by reset_no_drop): the next insertion is not prepared"),
+                        );
+                    } else if !ok {
                         ctx.fail("reserve-contract", &format!("after reserve({n}) on {s0} slots, {n} insertions rehashed the table or found a ghost"));
                     }
                 }
@@ -905,6 +911,34 @@ fn generate(cfg: &GenCfg, rng: &mut Rng, w: &mut dyn Write) {
     writeln!(w, "case reg-capacity-overflow").unwrap();
     writeln!(w, "withcap 1610612737").unwrap(); // 1610612737*4/3 = 2147483649 -> 2^32 slots > 2^31: panics before allocating
     writeln!(w, "dump").unwrap();
+    // (f) growth through several rehashes, then emptying by removal and refilling: the `free`
+    //     accounting across rehashes decides whether the next growth happens in time
+    for fam in ["const", "wrap", "ident", "random", "abovestatus"] {
+        let n: u64 = if cfg.thorough { 400 } else { 100 };
+        let hs: Vec<u64> = (0..n).map(|k| family_hash(fam, k, 9, rng)).collect();
+        writeln!(w, "case reg-grow-{}", fam).unwrap();
+        write_hashes(w, &hs);
+        writeln!(w, "new").unwrap();
+        for k in 0..n {
+            writeln!(w, "ins {} {}", k, hs[k as usize]).unwrap();
+            if k % 8 == 3 {
+                writeln!(w, "dump").unwrap();
+            }
+        }
+        writeln!(w, "dump\niter").unwrap();
+        for k in 0..n - 3 {
+            writeln!(w, "rem {} {}", k, hs[k as usize]).unwrap();
+        }
+        writeln!(w, "dump").unwrap();
+        for k in 0..n {
+            writeln!(w, "ins {} {}", (k * 7) % n, hs[((k * 7) % n) as usize]).unwrap();
+        }
+        writeln!(w, "dump\nretain 1\ndump").unwrap();
+        for k in 0..n / 2 {
+            writeln!(w, "ins {} {}", k, hs[k as usize]).unwrap();
+        }
+        writeln!(w, "dump").unwrap();
+    }
     // (e) reset_no_drop leaves `free` behind
     if reset {
         for (i, mid) in ["", "reserve 0", "reserve 1", "reserve 5", "drain", "clear", "retain 0", "clone", "find 1 1", "rem 1 1"].iter().enumerate() {
@@ -928,7 +962,7 @@ fn generate(cfg: &GenCfg, rng: &mut Rng, w: &mut dyn Write) {
     let fams_all: [(&str, u64); 6] = [("const", 7), ("abovemask", 3), ("abovestatus", 9), ("wrap", 0), ("two", 14), ("const", u64::MAX)];
     let empty: Vec<Vec<String>> = vec![vec![]];
     if cfg.thorough {
-        // all sequences of length 5 over 14 operations (5 keys) for the three main families,
+        // all sequences of length 5 over 14 operations (5 keys) for the main families,
         // length 4 for the others and behind prefixes that put tombstones / wrap-around in place
         gen_exhaustive(w, rng, 5, 5, &fams_all[..4], &empty);
         gen_exhaustive(w, rng, 5, 4, &fams_all[4..], &empty);
@@ -939,15 +973,18 @@ fn generate(cfg: &GenCfg, rng: &mut Rng, w: &mut dyn Write) {
         ];
         gen_exhaustive(w, rng, 5, 4, &fams_all[..4], &pre);
     } else {
-        gen_exhaustive(w, rng, 4, 4, &fams_all[..2], &empty);
-        gen_exhaustive(w, rng, 4, 3, &fams_all[2..], &empty);
-        let pre: Vec<Vec<String>> = vec![vec!["ins $0".into(), "ins $1".into(), "ins $2".into(), "rem $0".into(), "rem $1".into()]];
+        gen_exhaustive(w, rng, 5, 4, &fams_all[..4], &empty);
+        gen_exhaustive(w, rng, 4, 3, &fams_all[4..], &empty);
+        let pre: Vec<Vec<String>> = vec![
+            vec!["ins $0".into(), "ins $1".into(), "ins $2".into(), "rem $0".into(), "rem $1".into()],
+            vec!["withcap 12".into(), "ins $3".into(), "ins $2".into(), "rem $3".into()],
+        ];
         gen_exhaustive(w, rng, 4, 3, &fams_all[..4], &pre);
     }
 
     // ---- long phase-structured random sequences
     let fams = ["const", "abovemask", "abovestatus", "wrap", "two", "ident", "random", "mixed"];
-    let rounds = if cfg.thorough { 6 * sc } else { sc };
+    let rounds = if cfg.thorough { 8 * sc } else { 3 * sc };
     for r in 0..rounds {
         for fam in fams {
             let nkeys = *rng.pick(&[6u64, 12, 13, 24, 24, 40, 96]);
